@@ -94,7 +94,7 @@ var _ = long
 var (
 	domPool  = []string{"reg.io", "REG.io", "Reg.io", "reg.i", "reg.io.x", "eg.io", "xreg.io", "reg-io", "localhost", "reg",
 		"icr.io", "r.io", "cgr.dev", "gr.dev", "oci.reg.io", "docker.io", "https.reg.io", "io.reg.io", "127.0.0.1"}
-	portPool = []string{"", "", ":5000", ":500", ":50000", ":443"}
+	portPool = []string{"", "", ":5000", ":500", ":50000", ":443", ":05000", ":70000", ":5000", ":05000"}
 	compPool = []string{"a", "b", "c", "ab", "bc", "a-b", "a_b", "a.b", "a__b", "b0"}
 	// truncations of pool components that are themselves well formed
 	truncated = map[string]string{"ab": "a", "bc": "b", "b0": "b"}
@@ -143,7 +143,11 @@ func variants(s scope) []variant {
 	case "":
 		out = append(out, variant{"add-port", scope{s.Dom, ":5000", s.Comps}}, variant{"add-port", scope{s.Dom, ":443", s.Comps}})
 	case ":5000":
-		out = append(out, variant{"drop-port", scope{s.Dom, "", s.Comps}}, variant{"port-prefix", scope{s.Dom, ":500", s.Comps}}, variant{"port-extension", scope{s.Dom, ":50000", s.Comps}})
+		out = append(out, variant{"drop-port", scope{s.Dom, "", s.Comps}}, variant{"port-prefix", scope{s.Dom, ":500", s.Comps}}, variant{"port-extension", scope{s.Dom, ":50000", s.Comps}},
+			// the same number written otherwise is another string: ports are compared as text
+			variant{"port-leading-zero", scope{s.Dom, ":05000", s.Comps}}, variant{"port-leading-zero", scope{s.Dom, ":005000", s.Comps}})
+	case ":05000":
+		out = append(out, variant{"port-without-leading-zero", scope{s.Dom, ":5000", s.Comps}}, variant{"drop-port", scope{s.Dom, "", s.Comps}})
 	default:
 		out = append(out, variant{"drop-port", scope{s.Dom, "", s.Comps}}, variant{"other-port", scope{s.Dom, ":5000", s.Comps}})
 	}
